@@ -45,7 +45,16 @@ func (p *Prog) verifyFunction(f *ssa.Function, c *Contract) (res *FnResult) {
 	ex.entryHeap = h0
 	ex.entryReach = tTrue
 	for _, prm := range f.Params {
-		v := ex.havocVal("p_"+prm.Name(), prm.Type(), tTrue)
+		var v Term
+		if q.so.sortOf(prm.Type()) == sIface {
+			// explicit (tag, payload) constants: case splits on the dynamic type then simplify syntactically
+			tg := q.fresh("p_"+prm.Name()+"_tag", sInt)
+			pv := q.fresh("p_"+prm.Name()+"_val", sInt)
+			q.assume(le(tInt(0), tg))
+			v = mkIface(tg, pv)
+		} else {
+			v = ex.havocVal("p_"+prm.Name(), prm.Type(), tTrue)
+		}
 		ex.params = append(ex.params, v)
 		ex.vals[prm] = v
 		if isPointerLike(prm.Type()) {
@@ -122,7 +131,39 @@ func (p *Prog) verifyFunction(f *ssa.Function, c *Contract) (res *FnResult) {
 		}
 	}
 	post := ex.specCtx(vars, hf)
-	if len(ex.rets) > 1 && len(ex.rets) <= 48 {
+	if len(c.Splits) > 0 {
+		// case analysis: every ensures clause is proved separately for each combination of alternatives
+		pre0 := ex.specCtx(ex.paramVars(), h0)
+		type combo struct {
+			name string
+			cond Term
+		}
+		combos := []combo{{"", tTrue}}
+		for si, alts := range c.Splits {
+			var terms []Term
+			for _, a := range alts {
+				terms = append(terms, pre0.evalBool(a))
+			}
+			q.oblige(fmt.Sprintf("%s/split.cover#%d", key, si+1), "split", tTrue, or(terms...), p.fset.Position(f.Pos()), "the case split is exhaustive under the precondition")
+			var next []combo
+			for _, cb := range combos {
+				for ai, t := range terms {
+					n := cb.name
+					if n != "" {
+						n += ","
+					}
+					next = append(next, combo{n + fmt.Sprint(ai+1), and(cb.cond, t)})
+				}
+			}
+			combos = next
+		}
+		for _, e := range c.Ensures {
+			g := post.evalBool(e)
+			for _, cb := range combos {
+				q.oblige(fmt.Sprintf("%s/post.%s[%s]", key, e.Label, cb.name), "post", and(anyRet, cb.cond), g, p.fset.Position(f.Pos()), "postcondition (case "+cb.name+"): "+e.Text)
+			}
+		}
+	} else if len(ex.rets) > 1 && len(ex.rets) <= 48 {
 		// one obligation per return site (ordinal in block order): sharper diagnostics
 		for k, r := range ex.rets {
 			rvars := map[string]SV{}
